@@ -546,17 +546,101 @@ class FX:
                 fp[n][f"D|{d[0]}|{mask(d[1]) if isinstance(d[1], ast.AST) else ''}"] += 1
         return fp
 
+    def _resolve_loop_vars(self, ctx, headers, pinned_headers):
+        """A loop over the same iterable whose variables are named differently from the pinned tree's loop (same target shape) is
+        read with the pinned names: rules address `slaves[i]`, whatever the index is called today."""
+        from .core import cnorm
+        by_iter = {}
+        for t, it in pinned_headers:
+            by_iter.setdefault(cnorm(it), set()).add(t)
+        have = {(t, cnorm(it)) for t, it in headers}
+
+        def leaves(text):
+            try:
+                e = ast.parse(text, mode="eval").body
+            except SyntaxError:
+                return None
+            out = []
+
+            def rec(x):
+                if isinstance(x, ast.Name):
+                    out.append(x.id)
+                    return True
+                if isinstance(x, (ast.Tuple, ast.List)):
+                    return all(rec(y) for y in x.elts)
+                return False
+            return out if rec(e) else None
+        for t, it in headers:
+            cands = by_iter.get(cnorm(it), set())
+            if t in cands or not cands:
+                continue
+            a_ = leaves(t)
+            if a_ is None:
+                continue
+            scored = []
+            for pt in sorted(cands):
+                b_ = leaves(pt)
+                if b_ is None or len(a_) != len(b_):
+                    continue
+                mp = {x: y for x, y in zip(a_, b_) if x != y and x != "_" and y != "_"}
+                same = sum(1 for x, y in zip(a_, b_) if x == y)
+                scored.append((same, pt, mp))
+            if not scored:
+                continue
+            best = max(s_[0] for s_ in scored)
+            tops = [s_ for s_ in scored if s_[0] == best]
+            if any(s_[2] != tops[0][2] for s_ in tops):
+                continue        # the pinned loops over this iterable disagree on what the variables are called
+            pt, mp = tops[0][1], tops[0][2]
+            if not mp:
+                continue
+            used_elsewhere = False
+            for a in self.assigns:
+                if (t, it) not in a.loops:
+                    continue
+                for e in [a.target, a.value] + [c for c, _ in a.guards]:
+                    if isinstance(e, ast.AST) and any(isinstance(x, ast.Name) and x.id in mp.values() and x.id not in mp for x in ast.walk(e)):
+                        used_elsewhere = True
+            if used_elsewhere:
+                continue
+            import re as _re
+            pat = _re.compile(r"\b(" + "|".join(_re.escape(k) for k in mp) + r")\b")
+            for a in self.assigns:
+                if (t, it) not in a.loops:
+                    continue
+                for e in [a.target, a.value] + [c for c, _ in a.guards]:
+                    if isinstance(e, ast.AST):
+                        for x in ast.walk(e):
+                            if isinstance(x, ast.Name) and x.id in mp:
+                                x.id = mp[x.id]
+                a.loops = [((pt, i2) if (t2, i2) == (t, it) else (t2, i2)) for t2, i2 in a.loops]
+                a.pyguards = [(pat.sub(lambda m_: mp[m_.group(1)], c), p) for c, p in a.pyguards]
+                a._t = a._v = None
+            for c in self.conns:
+                if (t, it) in c["loops"]:
+                    for e in [c["conn"].src, c["conn"].dst] + [g for g, _ in c["guards"]]:
+                        if isinstance(e, ast.AST):
+                            for x in ast.walk(e):
+                                if isinstance(x, ast.Name) and x.id in mp:
+                                    x.id = mp[x.id]
+                    c["loops"] = [((pt, i2) if (t2, i2) == (t, it) else (t2, i2)) for t2, i2 in c["loops"]]
+            ctx.note(f"{self.rel}::{self.scope}: loop `{t} in {it}` is read with the pinned loop variables `{pt}`")
+
     def _resolve_ir_renames(self, ctx, entries):
         key = f"{self.rel}::{self.scope}::{','.join(entries) if self.cls_name else ''}"
+        headers = sorted({(t, it) for a in self.assigns for t, it in a.loops if not it.startswith("=")})
         if RECORD_IR is not None:
             names = [n for n in self.decl if n.isidentifier()]
             RECORD_IR[key] = {n: dict(c) for n, c in self._ir_fingerprints(names).items() if c}
+            RECORD_IR[key]["#loops"] = [list(h) for h in headers]
             return
         if os.environ.get("LXS_NO_RENAME"):
             return
         pinned = _irtable().get(key)
         if not pinned:
             return
+        pinned = dict(pinned)
+        self._resolve_loop_vars(ctx, headers, pinned.pop("#loops", []))
         used = {x.id for a in self.assigns for e in (a.target, a.value) if isinstance(e, ast.AST) for x in ast.walk(e) if isinstance(x, ast.Name)}
         missing = [n for n in pinned if n not in self.decl and n not in used]
         extra = [n for n in self.decl if n.isidentifier() and n not in pinned]
